@@ -221,10 +221,19 @@ pub trait SemanticString<const CAPACITY: usize>:
     /// illegal characters or the content would result in an illegal content it fails.
     fn insert_bytes(&mut self, idx: usize, bytes: &[u8]) -> Result<(), SemanticStringError> {
         let msg = "Unable to insert byte string";
-        fail!(from self, when unsafe { self.get_mut_string().insert_bytes(idx, bytes) },
-                with SemanticStringError::ExceedsMaximumLength,
+        match unsafe { self.get_mut_string().insert_bytes(idx, bytes) } {
+            Ok(()) => (),
+            Err(StringModificationError::InvalidCharacter) => {
+                fail!(from self, with SemanticStringError::InvalidContent,
+                    "{} \"{}\" since it contains invalid characters.",
+                        msg, as_escaped_string(bytes));
+            }
+            Err(_) => {
+                fail!(from self, with SemanticStringError::ExceedsMaximumLength,
                     "{} \"{}\" since it would exceed the maximum allowed length of {}.",
                         msg, as_escaped_string(bytes), CAPACITY);
+            }
+        }
 
         if Self::is_invalid_content(self.as_bytes()) {
             unsafe { self.get_mut_string().remove_range(idx, bytes.len()) };
